@@ -23,6 +23,11 @@ CLAIMED = {
          "inPlace_rebind_frame; the model (with Gauss-Jordan for inv) runs in the driver and is compared after every op with the real objects (values, flags, "
          "np.shares_memory classes) and with a per-matrix NumPy shadow.",
          "4 C13", "Lean 4 proof (value-level algebra + object-store invariants by induction) + differential correspondence"),
+ 'C12': ("Lean theorems about the FromArray/FromFile model: allclose_iff (NumPy's documented test, exactly), fromArray_ok_iff, fromArray_verbatim, "
+         "fromArray_wrong_length_rejected, fromArray_k_mismatch_rejected, fromFile_twocol_ok_iff, fromFile_verbatim, fromFile_wrong_length_rejected, and the negation "
+         "witness shipped_single_row_accepted for the repaired defect F11; the model decides accept/reject and the returned values BITWISE against the real classes "
+         "on random domains and k-grid relations incl. perturbations straddling the allclose threshold, both file layouts, single-row/single-value files.",
+         "4 C12", "Lean 4 proof (decision logic stated outright) + bit-exact differential correspondence"),
 }
 NA = {}
 def main():
